@@ -470,6 +470,19 @@ class Replay:
                     self.add(step, 'pyread', f'{vname}.values() are not the item values')
                 if list(reversed(view.keys())) != keys[::-1]:
                     self.add(step, 'pyread', f'reversed({vname}.keys()) is wrong')
+                # membership tests on the dict views themselves
+                for kv in (1, 2, 3):
+                    k = host.value('Meta', kv)
+                    if (k in view.keys()) != (k in keys):
+                        self.add(step, 'pyread', f'{k!r} in {vname}.keys() is wrong')
+                if ref:
+                    first_of = next(j for j, kk in enumerate(keys) if kk == keys[0])
+                    vals = list(view.values())
+                    if vals[0] not in view.values():
+                        self.add(step, 'pyread', f'a value is not in {vname}.values()')
+                    pair = (keys[0], view[keys[0]])
+                    if pair not in view.items() or (keys[0], object()) in view.items():
+                        self.add(step, 'pyread', f'membership in {vname}.items() is wrong')
                 if list(view.keys()) != keys:
                     self.add(step, 'pyread', f'{vname}.keys() = {list(view.keys())}, expected {keys}')
                 if len(list(view.values())) != n or len(list(view.items())) != n:
